@@ -379,7 +379,173 @@ def _cls_in(repo, t, classes) -> bool:
     return c in repo.classes and repo.classes[c] in classes
 
 
+def r08f(ctx, rule='R08f'):
+    """Widths tied to the network output are frozen, on graphs: build_shared_features_map is
+    interpreted (finite interpreter; networkx and the fx graph replaced by small concrete
+    stand-ins) on graph worlds, and every width-defining layer whose features reach the
+    output through nodes that do not define a width of their own (activations, pooling,
+    flatten, element-wise sums, channel concatenations) must receive the frozen masker:
+    export would otherwise remove output channels."""
+    from ..mini import Mini, Obj, Raised, Token, Unsupported
+    repo = ctx.repo
+    fn = repo.fn('pit.graph.build_shared_features_map')
+
+    def build(spec, out_pred):
+        """spec: name -> (kind, [input names]); kinds: in, def, prop, cat"""
+        nodes = {}
+        for name, (kind, _ins) in spec.items():
+            o = Obj('Node')
+            tm = Obj('TensorMeta')
+            tm.attrs.update({'shape': (2, 4, 8, 8), '_len': 7})
+            o.attrs.update({'name': name, 'op': 'placeholder' if kind == 'in' else 'call_module',
+                            'meta': {'untouchable': False,
+                                     'features_concatenate': kind == 'cat',
+                                     'features_defining': kind == 'def',
+                                     'features_propagating': kind == 'prop',
+                                     'flatten': False, 'squeeze': False, 'unsqueeze': False,
+                                     'tensor_meta': tm}, '_kind': kind})
+            nodes[name] = o
+        out = Obj('Node')
+        tmo = Obj('TensorMeta')
+        tmo.attrs.update({'shape': (2, 4, 8, 8), '_len': 7})
+        out.attrs.update({'name': 'output', 'op': 'output', '_kind': 'out',
+                          'meta': {'untouchable': False, 'features_concatenate': False,
+                                   'features_defining': False, 'features_propagating': False,
+                                   'flatten': False, 'squeeze': False, 'unsqueeze': False,
+                                   'tensor_meta': tmo}})
+        edges = set()
+        for name, (_k, ins) in spec.items():
+            nodes[name].attrs['all_input_nodes'] = [nodes[i] for i in ins]
+            for i in ins:
+                edges.add((id(nodes[i]), id(nodes[name])))
+        out.attrs['all_input_nodes'] = [nodes[out_pred]]
+        edges.add((id(nodes[out_pred]), id(out)))
+        allnodes = list(nodes.values()) + [out]
+        return nodes, out, allnodes, edges
+
+    class _G(Mini):
+        def expr(self, e, env):
+            if isinstance(e, ast.Attribute):
+                o = self.expr(e.value, env)
+                if isinstance(o, Obj):
+                    if e.attr in o.attrs:
+                        return o.attrs[e.attr]
+                    if o.cls_name == 'DiGraph' and e.attr == 'nodes':
+                        return list(o.attrs['_nodes'])
+                return ('boundmethod', o, e.attr)
+            return super().expr(e, env)
+
+        def builtin(self, name, args, kwargs, node):
+            if name == 'len' and isinstance(args[0], Obj) and '_len' in args[0].attrs:
+                return args[0].attrs['_len']
+            if name == 'hasattr':
+                return isinstance(args[0], Obj) and args[1] in args[0].attrs
+            return super().builtin(name, args, kwargs, node)
+
+        def method(self, o, name, args, kwargs, node):
+            if isinstance(o, Obj) and o.cls_name == 'DiGraph':
+                N, E = o.attrs['_nodes'], o.attrs['_edges']
+                if name == 'predecessors':
+                    return [u for u in N if (id(u), id(args[0])) in E]
+                if name == 'successors':
+                    return [v for v in N if (id(args[0]), id(v)) in E]
+                if name == 'remove_edge':
+                    E.discard((id(args[0]), id(args[1])))
+                    return None
+                if name == 'remove_edges_from':
+                    for u, v in args[0]:
+                        E.discard((id(u), id(v)))
+                    return None
+                if name == 'remove_node':
+                    o.attrs['_nodes'] = [x for x in N if x is not args[0]]
+                    o.attrs['_edges'] = {(a, b) for a, b in E
+                                         if a != id(args[0]) and b != id(args[0])}
+                    return None
+                if name == 'in_edges':
+                    return [(u, args[0]) for u in N if (id(u), id(args[0])) in E]
+            if isinstance(o, dict) and name == 'get':
+                return o.get(args[0], args[1] if len(args) > 1 else None)
+            return super().method(o, name, args, kwargs, node)
+
+    def components(g):
+        N, E = g.attrs['_nodes'], g.attrs['_edges']
+        left = list(N)
+        out = []
+        while left:
+            comp, todo = [], [left.pop(0)]
+            while todo:
+                x = todo.pop()
+                comp.append(x)
+                for y in list(left):
+                    if (id(x), id(y)) in E or (id(y), id(x)) in E:
+                        left.remove(y)
+                        todo.append(y)
+            out.append(comp)
+        return out
+    worlds = {
+        'last layer followed by an activation':
+            ({'x': ('in', []), 'c1': ('def', ['x']), 'r1': ('prop', ['c1']),
+              'c2': ('def', ['r1']), 'r2': ('prop', ['c2'])}, 'r2', ['c2']),
+        'output is a residual sum':
+            ({'x': ('in', []), 's': ('def', ['x']), 'a': ('def', ['s']), 'b': ('def', ['s']),
+              'add': ('prop', ['a', 'b'])}, 'add', ['a', 'b']),
+        'output is a channel concatenation':
+            ({'x': ('in', []), 's': ('def', ['x']), 'a': ('def', ['s']), 'b': ('def', ['s']),
+              'cat': ('cat', ['a', 'b'])}, 'cat', ['a', 'b']),
+        'channel concatenation followed by an activation':
+            ({'x': ('in', []), 's': ('def', ['x']), 'a': ('def', ['s']), 'b': ('def', ['s']),
+              'cat': ('cat', ['a', 'b']), 'r': ('prop', ['cat'])}, 'r', ['a', 'b']),
+    }
+    n = 0
+    for label, (spec, out_pred, must_freeze) in worlds.items():
+        nodes, out, allnodes, edges = build(spec, out_pred)
+        g = Obj('DiGraph')
+        g.attrs.update({'_nodes': list(allnodes), '_edges': set(edges)})
+        graph = Obj('Graph')
+        graph.attrs['nodes'] = list(allnodes)
+        mod = Obj('GraphModule')
+        mod.attrs['graph'] = graph
+        nx = Obj('pkg')
+        nx.attrs['weakly_connected_components'] = Token('wcc', components)
+        fxp = Obj('pkg')
+        fxp.attrs['Node'] = Token('cls:Node')
+        glob = {
+            'fx_to_nx_graph': Token('fx_to_nx_graph', lambda _g: g),
+            'get_graph_inputs': Token('get_graph_inputs',
+                                      lambda _g: [x for x in allnodes
+                                                  if x.attrs['op'] == 'placeholder']),
+            'get_graph_outputs': Token('get_graph_outputs', lambda _g: [out]),
+            'nx': nx, 'fx': fxp, 'cast': Token('cast', lambda _t, v: v),
+            'PITFrozenFeaturesMasker': Token('Frozen', lambda *_a: 'FROZEN'),
+            'PITFeaturesMasker': Token('Plain', lambda *_a: 'PLAIN'),
+        }
+        # the other functions of the module (steps the function may be split into)
+        for st in fn.module.tree.body:
+            if isinstance(st, ast.FunctionDef) and st is not fn.node and st.name not in glob:
+                glob[st.name] = Token('fn:' + st.name,
+                                      lambda *a, _n=st: _G(glob).call_function(_n, list(a)))
+        try:
+            res = _G(glob).call_function(fn.node, [mod])
+        except (Unsupported, Raised) as ex:
+            raise AnalysisError(f'{rule}: build_shared_features_map is outside the interpreted '
+                                f'subset: {ex}')
+        if not isinstance(res, dict):
+            raise AnalysisError(f'{rule}: build_shared_features_map did not return a map')
+        n += 1
+        got = {name: next((v for k, v in res.items() if k is nodes[name]), None)
+               for name in must_freeze}
+        bad = sorted(k for k, v in got.items() if v != 'FROZEN')
+        ctx.ob(rule, f'output-tied widths are frozen: {label}', not bad,
+               f'{must_freeze} get the frozen masker' if not bad else
+               f'layers {bad} produce the features of the network output (through '
+               f'{out_pred}) but get {[got[k] for k in bad]}: their masks are trainable NAS '
+               f'parameters, the search can prune them and export() then returns a network with '
+               f'fewer output features than the model it was searched from', where(fn))
+    ctx.floor(rule, 'graph worlds', n, 4)
+
+
 def run(ctx):
+    r08f(ctx)
     r08a(ctx)
     r08b(ctx)
     r08c(ctx)
